@@ -95,6 +95,7 @@ def check(an, rep, tier):
     # --- P-cache-uses
     allowed = 0
     bad = []
+    other_uses = False
     for node in ast.walk(fn.node):
         if isinstance(node, ast.Name) and node.id == 'cache' and \
                 isinstance(node.ctx, ast.Load):
@@ -109,12 +110,22 @@ def check(an, rep, tier):
                 ok = isinstance(gp, ast.Dict)      # 'with_cache': cache is not None
             elif isinstance(par, ast.Dict):
                 ok = True           # opts = {..., 'cache': cache}
+            # known-bad uses: the dictionary is read / written / queried by the
+            # driver itself (outside the request wrapper)
+            direct = isinstance(par, ast.Subscript) or \
+                (isinstance(par, ast.Attribute) and
+                 isinstance(getattr(par, '_parent', None), ast.Call)) or \
+                (isinstance(par, ast.Compare) and
+                 isinstance(par.ops[0], (ast.In, ast.NotIn)))
             if ok:
                 allowed += 1
-            else:
+            elif direct:
                 bad.append(node.lineno)
+            else:
+                other_uses = True
     rep.add('P-cache-uses', 'cross.cross', '%d uses of the cache argument'
-            % allowed, 'ok' if not bad and allowed >= 3 else 'violation',
+            % allowed, 'ok' if not bad and allowed >= 3 and not other_uses
+            else ('violation' if bad else 'unknown'),
             '' if not bad else 'the cache influences something besides the '
             'request wrapper / with_cache / callback options (lines %s)' % bad,
             line=fn.node.lineno, file=mod.path)
@@ -123,6 +134,7 @@ def check(an, rep, tier):
     rets = [n for n in ast.walk(fe.node) if isinstance(n, ast.Return) and
             n.value is not None]
     good = 0
+    wrong_order = None
     for r in rets:
         v = r.value
         if isinstance(v, ast.Call) and (prog.dotted(v.func) or '').endswith(
@@ -139,9 +151,14 @@ def check(an, rep, tier):
                     a0.generators[0].iter.id == fe.params[1] and \
                     not a0.generators[0].ifs:
                 good += 1               # [cache[tuple(i)] for i in I]
+            elif isinstance(a0, ast.ListComp) and \
+                    isinstance(a0.generators[0].iter, ast.Name):
+                # values looked up for another index list than the batch
+                wrong_order = a0.generators[0].iter.id
     rep.add('P-cache-value', 'cross._func_eval', 'both branches return '
             'np.array(<values in batch order>, dtype=float)',
-            'ok' if good == 2 and len(rets) == 2 else 'violation',
+            'ok' if good == 2 and len(rets) == 2 else (
+                'violation' if wrong_order else 'unknown'),
             '' if good == 2 else 'cached and uncached branches no longer '
             'return the same kind of array in batch order (%d of %d)'
             % (good, len(rets)), line=fe.node.lineno, file=fe.module.path)
